@@ -19,7 +19,8 @@ vars == <<arch, phase, f>>
 
 Node(op, ins, out, dw, excl) ==
     [op |-> op, ins |-> ins, out |-> out, k |-> IF op = "conv" THEN 3 ELSE 1, d |-> 1, s |-> 1,
-     bias |-> TRUE, bn |-> FALSE, dw |-> dw, excl |-> excl, causal |-> (Dim = 1 /\ op = "conv"), reuse |-> 0]
+     bias |-> TRUE, bn |-> FALSE, dw |-> dw, excl |-> excl, causal |-> (Dim = 1 /\ op = "conv"), reuse |-> 0,
+     valid |-> FALSE]
 
 Init == /\ arch = [dim |-> Dim, c0 |-> C0, sp |-> Sp0, nodes |-> <<>>]
         /\ phase = "grow"
@@ -52,6 +53,10 @@ Candidates(a) ==
     (IF AllowReuse THEN {nd \in ReuseCands(a) : ValidReuse(a, nd)} ELSE {}) \cup
     {Node("conv", <<p>>, w, FALSE, e) : p \in NF(a), w \in Widths, e \in Excl}
     \cup {Node("conv", <<p>>, 0, TRUE, FALSE) : p \in NF(a)}
+    \* un-padded 1x1... no: un-padded convolutions with kernel 1 (size preserved) and, where the tensor is large
+    \* enough, kernel 3 (size shrinks by 2)
+    \cup (IF Extras THEN {[Node("conv", <<p>>, w, FALSE, FALSE) EXCEPT !.valid = TRUE, !.causal = FALSE] :
+                              p \in {t \in NF(a) : Sp(a, t) >= 3 /\ (Dim = 1 \/ SpW(a, t) >= 3)}, w \in Widths} ELSE {})
     \cup {Node("lin", <<p>>, w, FALSE, e) : p \in T(a) \ NF(a), w \in Widths, e \in Excl}
     \cup {Node("relu", <<p>>, 0, FALSE, FALSE) : p \in T(a) \ {0}}
     \cup (IF Extras THEN {Node("sig", <<p>>, 0, FALSE, FALSE) : p \in T(a) \ {0}} ELSE {})
